@@ -25,8 +25,13 @@ def corr_reader_groups(seed, tier):
     return corr_bridge.check(seed, tier)
 
 
+def corr_product_cache_first(seed, tier):
+    import corr_product_cached
+    return corr_product_cached.check(seed, tier)
+
+
 def checks(tier):
-    return [corr_reader_groups, corr_codec,corr_flow,corr_json, oracle_c07]
+    return [corr_reader_groups, corr_codec,corr_flow,corr_json, oracle_c07, corr_product_cache_first]
 
 
 def replay(payload):
